@@ -187,7 +187,7 @@ func c19one(c *Ctx, cas c19case, all bool) {
 }
 
 func c19(c *Ctx) {
-	c.Rule = "FASTA files: N in {1,2,3} records x line width W in 1..4 x sequence lengths (N=1: every length 1..3W; N=2: pairs over {1,W-1,W,W+1,2W,2W+1,3W}; N=3: triples over {1,W,W+1}) x line end {LF,CRLF} x final newline {yes,no} x description {no,' d'} x blank line between records {no,yes}; bases cycle through ACGT shifted per record. Oracle: NewIndex == true length/start/bases-per-line/bytes-per-line (the latter two where the layout determines them), WriteTo->ReadFrom->WriteTo identical, and for every record, every 0<=start<=end<=length and buffer size in {1,2,3,7,64}: SeqRange+Read loop returns exactly seq[start:end] then io.EOF within a horizon; Seq likewise. Non-trivial: files whose sequence spans more than one line or that hold several records."
+	c.Rule = "FASTA files: N in {1,2,3} records x line width W in 1..4 (thorough: 1..8 and 61, and N=4 for W<=4) x sequence lengths (N=1: every length 1..3W (W=61: within one base of a line end); N=2: pairs over {1,W-1,W,W+1,2W,2W+1,3W}; N=3, 4: tuples over {1,W,W+1}) x line end {LF,CRLF} x final newline {yes,no} x description {no,' d'} x blank line between records {no,yes}; bases cycle through ACGT shifted per record. Oracle: NewIndex == true length/start/bases-per-line/bytes-per-line (the latter two where the layout determines them), WriteTo->ReadFrom->WriteTo identical, and for every record, every 0<=start<=end<=length and buffer size in {1,2,3,7,64}: SeqRange+Read loop returns exactly seq[start:end] then io.EOF within a horizon; Seq likewise. Non-trivial: files whose sequence spans more than one line or that hold several records."
 	if c.Replay != nil {
 		var cas c19case
 		if err := json.Unmarshal(c.Replay, &cas); err != nil {
@@ -198,9 +198,16 @@ func c19(c *Ctx) {
 		return
 	}
 	var cases []c19case
-	for w := 1; w <= 4; w++ {
+	widths := []int{1, 2, 3, 4}
+	if c.Thorough {
+		widths = []int{1, 2, 3, 4, 5, 6, 7, 8, 61}
+	}
+	for _, w := range widths {
 		var lensets [][]int
 		for l := 1; l <= 3*w; l++ {
+			if w > 8 && l != 1 && l%w > 1 && l%w < w-1 {
+				continue // wide lines: lengths within one base of a line end only
+			}
 			lensets = append(lensets, []int{l})
 		}
 		uniq := func(v []int) []int {
@@ -225,6 +232,17 @@ func c19(c *Ctx) {
 			for _, b := range three {
 				for _, d := range three {
 					lensets = append(lensets, []int{a, b, d})
+				}
+			}
+		}
+		if c.Thorough && w <= 4 {
+			for _, a := range three {
+				for _, b := range three {
+					for _, d := range three {
+						for _, e := range three {
+							lensets = append(lensets, []int{a, b, d, e})
+						}
+					}
 				}
 			}
 		}
